@@ -1030,3 +1030,286 @@ theorem scanLoop_torn (pre : Bytes) (s : Stamped) (hs : Sealed s) (c z fuel : Na
             fun h => hT ⟨h, hzl⟩
           have := (hd (by omega)).1 (c - 18) (by omega) hneq
           rw [hcrc, if_pos this]
+
+/-! ### the pending index of the queue -/
+
+theorem find_filter_ne (idx : Index) (k k' : Bytes) (h : k ≠ k') :
+    (idx.filter (fun e => !(e.key == k'))).find? (fun e => e.key == k) = idx.find? (fun e => e.key == k) := by
+  induction idx with
+  | nil => rfl
+  | cons e idx ih =>
+    by_cases h1 : e.key = k'
+    · have b1 : (e.key == k') = true := by simp [h1]
+      have b2 : (e.key == k) = false := by
+        simp only [beq_eq_false_iff_ne, ne_eq]
+        intro h3; exact h (h3.symm.trans h1)
+      rw [List.filter_cons, List.find?_cons]
+      simp only [b1, b2, Bool.not_true, Bool.false_eq_true, if_false]
+      exact ih
+    · have b1 : (e.key == k') = false := by simp [h1]
+      rw [List.filter_cons]
+      simp only [b1, Bool.not_false, if_true]
+      rw [List.find?_cons, List.find?_cons, ih]
+
+theorem find_filter_self (idx : Index) (k : Bytes) :
+    (idx.filter (fun e => !(e.key == k))).find? (fun e => e.key == k) = none := by
+  induction idx with
+  | nil => rfl
+  | cons e idx ih =>
+    by_cases h1 : e.key = k
+    · have b1 : (e.key == k) = true := by simp [h1]
+      rw [List.filter_cons]
+      simp only [b1, Bool.not_true, Bool.false_eq_true, if_false]
+      exact ih
+    · have b1 : (e.key == k) = false := by simp [h1]
+      rw [List.filter_cons]
+      simp only [b1, Bool.not_false, if_true]
+      rw [List.find?_cons]
+      simp only [b1]
+      exact ih
+
+theorem idxFind_put_self (idx : Index) (e : IdxEntry) : idxFind (idxPut idx e) e.key = some e := by
+  simp [idxFind, idxPut]
+
+theorem idxFind_put_other (idx : Index) (e : IdxEntry) (k : Bytes) (h : k ≠ e.key) :
+    idxFind (idxPut idx e) k = idxFind idx k := by
+  have b : (e.key == k) = false := by
+    simp only [beq_eq_false_iff_ne, ne_eq]; exact fun h1 => h h1.symm
+  unfold idxFind idxPut idxErase
+  rw [List.find?_cons]
+  simp only [b]
+  exact find_filter_ne idx k e.key h
+
+theorem idxFind_erase_self (idx : Index) (k : Bytes) : idxFind (idxErase idx k) k = none :=
+  find_filter_self idx k
+
+theorem idxFind_erase_other (idx : Index) (k k' : Bytes) (h : k ≠ k') :
+    idxFind (idxErase idx k') k = idxFind idx k :=
+  find_filter_ne idx k k' h
+
+theorem idxFind_some (idx : Index) (k : Bytes) (e : IdxEntry) (h : idxFind idx k = some e) :
+    e ∈ idx ∧ e.key = k := by
+  unfold idxFind at h
+  exact ⟨List.mem_of_find?_eq_some h, by simpa using List.find?_some h⟩
+
+theorem mem_idxErase (idx : Index) (k : Bytes) (e : IdxEntry) (h : e ∈ idxErase idx k) : e ∈ idx :=
+  (List.mem_filter.1 h).1
+
+theorem mem_idxPut (idx : Index) (e e' : IdxEntry) (h : e' ∈ idxPut idx e) : e' = e ∨ e' ∈ idx := by
+  rcases List.mem_cons.1 h with h | h
+  · exact Or.inl h
+  · exact Or.inr (mem_idxErase _ _ _ h)
+
+theorem idxCnt_setIndex (idx : Index) (r : Record) (k : Bytes) :
+    idxCnt (setIndex false idx r) k = idxCnt idx k + (if r.key = k then 1 else 0) := by
+  unfold setIndex
+  by_cases hk : r.key = k
+  · subst hk
+    cases hf : idxFind idx r.key with
+    | none => simp [idxCnt, hf, idxFind_put_self idx ⟨r.key, r.flg, 1⟩]
+    | some e =>
+      have := idxFind_put_self idx ⟨r.key, r.flg, e.cnt + 1⟩
+      simp only at this
+      simp [idxCnt, hf, this]
+  · have hk' : k ≠ r.key := fun h => hk h.symm
+    cases hf : idxFind idx r.key with
+    | none =>
+      have := idxFind_put_other idx ⟨r.key, r.flg, 1⟩ k hk'
+      simp [idxCnt, this, hk]
+    | some e =>
+      have := idxFind_put_other idx ⟨r.key, r.flg, e.cnt + 1⟩ k hk'
+      simp [idxCnt, this, hk]
+
+/-- the invariant of the queue (for the code under test, `seeded = false`); `fl` = the flag a key is
+    always written with (the index is keyed by key bytes only) -/
+structure QInv (fl : Bytes → Nat) (s : QState) : Prop where
+  cnt : ∀ k, idxCnt s.index k = s.pending.countP (fun r => r.key == k)
+  pos : ∀ e ∈ s.index, 1 ≤ e.cnt
+  iflg : ∀ e ∈ s.index, e.flg = fl e.key
+  pflg : ∀ r ∈ s.pending, r.flg = fl r.key
+  wal : ∃ d0 a, s.done = d0 ++ a ∧ s.wal = a ++ s.pending
+
+theorem qInv_init (fl : Bytes → Nat) : QInv fl QState.init :=
+  ⟨fun _ => rfl, fun _ h => by simp [QState.init] at h, fun _ h => by simp [QState.init] at h,
+   fun _ h => by simp [QState.init] at h, ⟨[], [], rfl, rfl⟩⟩
+
+/-- **the index is empty only when nothing is pending** -/
+theorem qInv_index_empty (fl : Bytes → Nat) (s : QState) (h : QInv fl s) (he : s.index = []) : s.pending = [] := by
+  cases hp : s.pending with
+  | nil => rfl
+  | cons r rest =>
+    have := h.cnt r.key
+    rw [he, hp] at this
+    simp [idxCnt, idxFind] at this
+
+theorem setIndex_mem (idx : Index) (r : Record) (e : IdxEntry) (h : e ∈ setIndex false idx r) :
+    (e.key = r.key ∧ e.flg = r.flg ∧ 1 ≤ e.cnt) ∨ e ∈ idx := by
+  unfold setIndex at h
+  cases hf : idxFind idx r.key with
+  | none =>
+    rw [hf] at h
+    rcases mem_idxPut _ _ _ h with h | h
+    · left; rw [h]; exact ⟨rfl, rfl, Nat.le_refl _⟩
+    · exact Or.inr h
+  | some e0 =>
+    rw [hf] at h
+    rcases mem_idxPut _ _ _ h with h | h
+    · left; rw [h]; exact ⟨rfl, rfl, by simp⟩
+    · exact Or.inr h
+
+/-- the part of the invariant that does not mention tmp.data is preserved by `deliver` -/
+theorem qDeliver_core (fl : Bytes → Nat) (s : QState) (r : Record) (hr : r.flg = fl r.key)
+    (hc : ∀ k, idxCnt s.index k = s.pending.countP (fun r => r.key == k))
+    (hp : ∀ e ∈ s.index, 1 ≤ e.cnt) (hi : ∀ e ∈ s.index, e.flg = fl e.key) (hf : ∀ r ∈ s.pending, r.flg = fl r.key) :
+    (∀ k, idxCnt (qDeliver false s r).index k = (qDeliver false s r).pending.countP (fun r => r.key == k)) ∧
+    (∀ e ∈ (qDeliver false s r).index, 1 ≤ e.cnt) ∧ (∀ e ∈ (qDeliver false s r).index, e.flg = fl e.key) ∧
+    (∀ r' ∈ (qDeliver false s r).pending, r'.flg = fl r'.key) := by
+  refine ⟨?_, ?_, ?_, ?_⟩
+  · intro k
+    simp only [qDeliver, idxCnt_setIndex, hc k, List.countP_append, List.countP_cons, List.countP_nil]
+    by_cases h : r.key = k <;> simp [h]
+  · intro e he
+    rcases setIndex_mem _ _ _ he with ⟨_, _, h⟩ | h
+    · exact h
+    · exact hp e h
+  · intro e he
+    rcases setIndex_mem _ _ _ he with ⟨h1, h2, _⟩ | h
+    · rw [h2, h1]; exact hr
+    · exact hi e h
+  · intro r' hr'
+    simp only [qDeliver, List.mem_append, List.mem_singleton] at hr'
+    rcases hr' with h | h
+    · exact hf r' h
+    · rw [h]; exact hr
+
+theorem qDeliver_fields (s : QState) (r : Record) :
+    (qDeliver false s r).pending = s.pending ++ [r] ∧ (qDeliver false s r).wal = s.wal ∧
+    (qDeliver false s r).done = s.done := ⟨rfl, rfl, rfl⟩
+
+structure QCore (fl : Bytes → Nat) (s : QState) : Prop where
+  cnt : ∀ k, idxCnt s.index k = s.pending.countP (fun r => r.key == k)
+  pos : ∀ e ∈ s.index, 1 ≤ e.cnt
+  iflg : ∀ e ∈ s.index, e.flg = fl e.key
+  pflg : ∀ r ∈ s.pending, r.flg = fl r.key
+
+theorem QInv.core {fl : Bytes → Nat} {s : QState} (h : QInv fl s) : QCore fl s := ⟨h.cnt, h.pos, h.iflg, h.pflg⟩
+
+theorem qDeliver_foldl (fl : Bytes → Nat) (rs : List Record) (s : QState) (hrs : ∀ r ∈ rs, r.flg = fl r.key)
+    (hc : QCore fl s) :
+    QCore fl (rs.foldl (qDeliver false) s) ∧ (rs.foldl (qDeliver false) s).pending = s.pending ++ rs ∧
+    (rs.foldl (qDeliver false) s).wal = s.wal ∧ (rs.foldl (qDeliver false) s).done = s.done := by
+  induction rs generalizing s with
+  | nil => exact ⟨hc, by simp, rfl, rfl⟩
+  | cons r rs ih =>
+    obtain ⟨c1, c2, c3, c4⟩ := qDeliver_core fl s r (hrs r (by simp)) hc.cnt hc.pos hc.iflg hc.pflg
+    obtain ⟨i1, i2, i3, i4⟩ := ih (qDeliver false s r) (fun r' h => hrs r' (by simp [h])) ⟨c1, c2, c3, c4⟩
+    refine ⟨i1, ?_, ?_, ?_⟩
+    · rw [List.foldl_cons, i2]; simp [qDeliver]
+    · rw [List.foldl_cons, i3]; rfl
+    · rw [List.foldl_cons, i4]; rfl
+
+/-- appending records to the queue (Put = one record, PutBatch = several) keeps the invariant -/
+theorem qInv_append (fl : Bytes → Nat) (s : QState) (rs : List Record) (h : QInv fl s)
+    (hrs : ∀ r ∈ rs, r.flg = fl r.key) :
+    QInv fl (rs.foldl (qDeliver false) { qEmptyFile s with wal := (qEmptyFile s).wal ++ rs }) := by
+  have hcore : QCore fl { qEmptyFile s with wal := (qEmptyFile s).wal ++ rs } := by
+    unfold qEmptyFile
+    split <;> exact ⟨h.cnt, h.pos, h.iflg, h.pflg⟩
+  obtain ⟨c, hp, hw, hd⟩ := qDeliver_foldl fl rs _ hrs hcore
+  refine ⟨c.cnt, c.pos, c.iflg, c.pflg, ?_⟩
+  rw [hp, hw, hd]
+  obtain ⟨d0, a, h1, h2⟩ := h.wal
+  unfold qEmptyFile
+  by_cases he : s.index = []
+  · have hpe := qInv_index_empty fl s h he
+    refine ⟨s.done, [], by simp [he], ?_⟩
+    simp [he, hpe]
+  · refine ⟨d0, a, by simp [he, h1], ?_⟩
+    simp [he, h2]
+
+/-- one operation of the code under test keeps the invariant and never panics -/
+theorem qInv_step (fl : Bytes → Nat) (s : QState) (op : QOp) (h : QInv fl s)
+    (hop : match op with
+      | .put r => r.flg = fl r.key
+      | .batch rs => ∀ r ∈ rs, r.flg = fl r.key
+      | .done => True) :
+    (qStep false s op).2 = false ∧ QInv fl (qStep false s op).1 := by
+  cases op with
+  | put r =>
+    refine ⟨rfl, ?_⟩
+    have := qInv_append fl s [r] h (by intro r' hr'; simp at hr'; rw [hr']; exact hop)
+    simpa [qStep] using this
+  | batch rs =>
+    unfold qStep
+    by_cases he : rs = []
+    · simp [he, h]
+    · simp only [he, if_false]
+      exact ⟨trivial, qInv_append fl s rs h hop⟩
+  | done =>
+    unfold qStep
+    cases hp : s.pending with
+    | nil => exact ⟨rfl, h⟩
+    | cons r rest =>
+      simp only
+      -- the entry of r.key exists, has the right flag and count = number of pending records of that key
+      have hcnt := h.cnt r.key
+      rw [hp] at hcnt
+      simp only [List.countP_cons, beq_self_eq_true, if_true] at hcnt
+      cases hf : idxFind s.index r.key with
+      | none => simp [idxCnt, hf] at hcnt
+      | some e =>
+        obtain ⟨hmem, hkey⟩ := idxFind_some _ _ _ hf
+        have hflg : e.flg = r.flg := by
+          rw [h.iflg e hmem, hkey, h.pflg r (by rw [hp]; simp)]
+        have hecnt : e.cnt = rest.countP (fun r' => r'.key == r.key) + 1 := by
+          simpa [idxCnt, hf] using hcnt
+        obtain ⟨d0, a, hd, hw⟩ := h.wal
+        have hwal : ∃ d0' a', s.done ++ [r] = d0' ++ a' ∧ s.wal = a' ++ rest :=
+          ⟨d0, a ++ [r], by rw [hd]; simp, by rw [hw, hp]; simp⟩
+        unfold delIndex
+        rw [hf]
+        simp only [hflg, ne_eq, not_true_eq_false, if_false]
+        by_cases h1 : e.cnt ≤ 1
+        · simp only [h1, if_true]
+          refine ⟨trivial, ?_, ?_, ?_, ?_, hwal⟩
+          · intro k
+            by_cases hk : k = r.key
+            · subst hk
+              simp only [idxCnt, idxFind_erase_self]
+              omega
+            · have := h.cnt k
+              rw [hp] at this
+              have hb : (r.key == k) = false := by
+                simp only [beq_eq_false_iff_ne, ne_eq]; exact fun h2 => hk h2.symm
+              simp only [List.countP_cons, hb, Bool.false_eq_true, if_false, Nat.add_zero] at this
+              simp only [idxCnt, idxFind_erase_other _ _ _ hk]
+              exact this
+          · exact fun e' he' => h.pos e' (mem_idxErase _ _ _ he')
+          · exact fun e' he' => h.iflg e' (mem_idxErase _ _ _ he')
+          · exact fun r' hr' => h.pflg r' (by rw [hp]; simp [hr'])
+        · simp only [h1, if_false]
+          refine ⟨trivial, ?_, ?_, ?_, ?_, hwal⟩
+          · intro k
+            by_cases hk : k = r.key
+            · subst hk
+              have := idxFind_put_self s.index ⟨r.key, r.flg, e.cnt - 1⟩
+              simp only at this
+              simp only [idxCnt, this]
+              omega
+            · have := h.cnt k
+              rw [hp] at this
+              have hb : (r.key == k) = false := by
+                simp only [beq_eq_false_iff_ne, ne_eq]; exact fun h2 => hk h2.symm
+              simp only [List.countP_cons, hb, Bool.false_eq_true, if_false, Nat.add_zero] at this
+              have hput := idxFind_put_other s.index ⟨r.key, r.flg, e.cnt - 1⟩ k hk
+              simp only [idxCnt, hput]
+              exact this
+          · intro e' he'
+            rcases mem_idxPut _ _ _ he' with h2 | h2
+            · rw [h2]; simp only; omega
+            · exact h.pos e' h2
+          · intro e' he'
+            rcases mem_idxPut _ _ _ he' with h2 | h2
+            · rw [h2]; exact h.pflg r (by rw [hp]; simp)
+            · exact h.iflg e' h2
+          · exact fun r' hr' => h.pflg r' (by rw [hp]; simp [hr'])
